@@ -814,6 +814,25 @@ pub mod verif_hooks {
         pub fn verif_position(&self) -> &P {
             &self.position
         }
+
+        /// Re-seat the action on another handle of the position, keeping every other field.
+        ///
+        /// [`DecreasePosition::try_new`] returns the action inside a `Result`; the solver back end
+        /// treats an enum payload byte-wise, which makes a position *reference* read back from it
+        /// imprecise (and the symbolic execution of everything behind it very slow). Rebuilding the
+        /// struct around a fresh handle avoids that without touching any logic.
+        pub fn verif_with_position<Q>(self, position: Q) -> DecreasePosition<Q, DECIMALS>
+        where
+            Q: PositionMut<DECIMALS, Num = P::Num, Signed = P::Signed>,
+            Q::Market: PerpMarketMut<DECIMALS, Num = P::Num, Signed = P::Signed>,
+        {
+            DecreasePosition {
+                position,
+                params: self.params,
+                withdrawable_collateral_amount: self.withdrawable_collateral_amount,
+                size_delta_usd: self.size_delta_usd,
+            }
+        }
     }
 
     /// Public mirror of the private `ProcessResult`.
